@@ -37,7 +37,7 @@ MANIFEST = {
 
 HEAD = (
     "import dataclasses\nfrom dataclasses import dataclass, field, KW_ONLY, InitVar\nfrom dataclasses import dataclass as dc\n"
-    "from typing import ClassVar\nopts = {'kw_only': True}\n"
+    "import typing\nfrom typing import ClassVar\nopts = {'kw_only': True}\n"
 )
 FORMS = {
     "plain": "{n}: int", "default": "{n}: int = 0", "field()": "{n}: int = field()", "field(default)": "{n}: int = field(default=0)",
@@ -47,6 +47,7 @@ FORMS = {
     "InitVar": "{n}: InitVar[int]", "InitVar=": "{n}: InitVar[int] = 0", "unannotated": "{n} = 0",
     "property": "@property\n    def {n}(self) -> int: return 0", "method": "def {n}(self): ...", "dotted-field": "{n}: int = dataclasses.field(default=0)",
     "field(default=MISSING)": "{n}: int = field(default=dataclasses.MISSING)",
+    "ClassVar-bare": "{n}: ClassVar = 0", "typing.ClassVar": "{n}: typing.ClassVar[int] = 0",
 }
 FORM_NAMES = list(FORMS)
 DECOS = {
@@ -242,7 +243,7 @@ CATEGORY = {
     # F init field, N field(init=False), I InitVar, C ClassVar, U other class attribute, K marker; "=" leaves a class-level value, "k" keyword-only
     "plain": "F", "default": "F=", "field()": "F", "field(default)": "F=", "field(factory)": "F=", "field(kw_only)": "Fk", "field(default,kw_only)": "Fk=", "field(kw_only=False)": "Fnk",
     "dotted-field": "F=", "InitVar": "I", "InitVar=": "I=", "field(init=False)": "N", "field(init=False,default)": "N=", "ClassVar": "C=",
-    "unannotated": "U=", "method": "U=", "property": "U=", "KW_ONLY": "K", "field(default=MISSING)": "Fm",
+    "unannotated": "U=", "method": "U=", "property": "U=", "KW_ONLY": "K", "field(default=MISSING)": "Fm", "ClassVar-bare": "C=", "typing.ClassVar": "C=",
 }
 
 
